@@ -3,6 +3,7 @@ different oracles; every property has its own check, oracle and counters."""
 from ..core.runner import split_range
 from ..workloads import gen_expect as G
 from ..workloads.scripted import steps
+from ..core.watchdog import watchdog, CaseTimeout
 
 SIZES = {
     # tier: (random histories, straddle histories, exhaustive (maxlen, maxcuts))
@@ -47,25 +48,47 @@ def cases_of(spec):
 
 def drive(spec, acc, make_oracle, on_case_end=None):
     """make_oracle(run, acc) -> callable(run, step) -> [(mechanism, detail)]"""
+    hangs = 0
     for case in cases_of(spec):
+        if hangs >= 4:
+            acc.inconc('shard stopped after %d non-returning calls (each costs a watchdog period)' % hangs)
+            break
         acc.case()
         oracle = None
         nops = 0
         bad = False
         run = None
-        for run, st in steps(case):
-            if oracle is None:
-                oracle = make_oracle(run, acc)
-            nops += 1
-            for rec in st.calls:
-                acc.count('engine_calls')
-                acc.count('reads', rec.reads)
-                acc.count('outcome_' + rec.kind.split(':')[0])
-            for mech, detail in oracle(run, st):
-                acc.violation(mech, 'op #%d %s' % (st.i, detail), case)
-                bad = True
-            if bad:
-                break
+        try:
+            # everything is in memory and the script is finite: a call that does not come back
+            # within 20 s is a logical hang (refuting event), not a slow machine
+            with watchdog(20 if not hangs else 3):
+                for run, st in steps(case):
+                    if oracle is None:
+                        oracle = make_oracle(run, acc)
+                    nops += 1
+                    if len(st.calls) > 2000:
+                        # thousands of engine-level calls for one operation on a <= 40 character
+                        # stream: the file-like loop does not terminate by itself
+                        acc.violation('call-does-not-return', 'op #%d %s made %d engine-level calls without finishing' % (
+                            st.i, st.op, len(st.calls)), case)
+                        bad = True
+                        break
+                    for rec in st.calls:
+                        acc.count('engine_calls')
+                        acc.count('reads', rec.reads)
+                        acc.count('outcome_' + rec.kind.split(':')[0])
+                    for mech, detail in oracle(run, st):
+                        acc.violation(mech, 'op #%d %s' % (st.i, detail), case)
+                        bad = True
+                    if bad:
+                        break
+        except CaseTimeout:
+            import pexpect.expect
+            import time as _t
+            pexpect.expect.time = _t
+            acc.violation('call-does-not-return', 'op #%d of the history did not return within 20 s on a finite in-memory script' % nops, case)
+            bad = True
+            hangs += 1
         if on_case_end and run is not None:
             on_case_end(run, case, acc, bad)
         if acc.evaluations <= 3:
